@@ -21,7 +21,8 @@ def kpool (t : Tokens) : String :=
 
 /-- kmux: the monitor is the property: no foreign data, no hang, distinct tags, no fid handed out
 while still bound, every unanswered call fails after a fault, later calls fail on a dead link. -/
-def kmux (_ : Tokens) : String := "foreign=0 hung=0 duptag=0 reuse= errsok=1 laterok=1 wrongerr=0"
+def kmux (t : Tokens) : String :=
+  if (t.get? "prepfailures").isSome then "prepfailures=few-expected-see-lhs" else "foreign=0 hung=0 duptag=0 reuse= errsok=1 laterok=1 wrongerr=0"
 
 /-- kmuxfid: a fid whose Tclunk is unanswered is outstanding in the pool model (Put happens after
 the reply): an allocation in between never returns it (`Pool` invariant: no duplicates among
